@@ -176,7 +176,11 @@ class AltEquiv(_Alt, DisjointUnionStrategy):
     OP = "~"
 
 
-def pack(max_rules=3):
+def pack(max_rules=3, split=False):
+    if split:  # unions as initial strategies, the rest in an expansion set: the last level may add rules without adding classes
+        return StrategyPack(initial_strats=[AltUnion(k) for k in range(max_rules)], inferral_strats=[],
+                            expansion_strats=[[s(k) for k in range(max_rules) for s in (AltProduct, AltAlias, AltEquiv)]],
+                            ver_strats=[AtomStrategy()], name="table pack (split)")
     return StrategyPack(initial_strats=[], inferral_strats=[],
                         expansion_strats=[[s(k) for k in range(max_rules) for s in (AltUnion, AltProduct, AltAlias, AltEquiv)]],
                         ver_strats=[AtomStrategy()], name="table pack")
